@@ -19,12 +19,17 @@
    with an error; nothing is committed for the failing request; blocks verified earlier stay;
    hooks were called only for completed segments; latest-synced is untouched; an explicit sync
    emits nothing, an announce-triggered one emits one error notification and un-caches the CID.
+   A publisher given with two addresses (cfg.addrs = 2, plain HTTP): a request that fails at transport level
+   (connection reset, no answer within the timeout) is repeated on the next address, and the rest of the sync
+   stays there; the faults of the plan sit on the first address.  The next sync starts at the first address again.
+
    FIXED = FALSE additionally models the pinned Syncer.fetch: in plain-HTTP mode a 404/403
    latches noPath, and every later request of that Syncer goes to the path-less URL (and fails
    against a publisher mounted under /ipni/v1/ad).                                             *)
 EXTENDS Integers, Sequences, FiniteSets, TLC, VerifIO
 
-CONSTANTS N, Segs, Kinds, MaxFaulty, FIXED, EXPORT
+CONSTANTS N, Segs, Kinds, MaxFaulty, FIXED, EXPORT,
+          MaxAddrs      \* 1, or 2: the publisher may be given with a second address (plain HTTP) the client can fail over to
 Modes == {"plain", "libp2p"}
 Triggers == {"explicit", "announce"}
 BodyKinds == {"bitflip", "truncated", "appended", "other", "empty", "oversized"}
@@ -32,26 +37,30 @@ BodyKinds == {"bitflip", "truncated", "appended", "other", "empty", "oversized"}
 VARIABLES cfg,        \* [mode, trigger, seg, faults: Seq of [at, kind]]
           phase,      \* index of the sync being run (Len(faults) + 1 = the clean one)
           pc, b, req, segblocks, segleft,
+          over,       \* this sync has failed over to the publisher's second address
           store,      \* set of [cid, body]
           latest, cached, noPath,
           rep,        \* blocks reported by hooks in the current sync
           log         \* one record per finished sync: what the harness can observe
-vars == <<cfg, phase, pc, b, req, segblocks, segleft, store, latest, cached, noPath, rep, log>>
+vars == <<cfg, phase, pc, b, req, segblocks, segleft, over, store, latest, cached, noPath, rep, log>>
 
 Faults == [at : 1..(N + 1), kind : Kinds]
-Configs == {[mode |-> m, trigger |-> t, seg |-> s, faults |-> f] :
-              m \in Modes, t \in Triggers, s \in Segs, f \in UNION {[1..k -> Faults] : k \in 1..MaxFaulty}}
-Applicable(c) == \A i \in 1..Len(c.faults) :
+Configs == {[mode |-> m, trigger |-> t, seg |-> s, addrs |-> a, faults |-> f] :
+              m \in Modes, t \in Triggers, s \in Segs, a \in 1..MaxAddrs, f \in UNION {[1..k -> Faults] : k \in 1..MaxFaulty}}
+FailOverKinds == {"reset", "stall"}      \* the request itself fails (no response): the client moves on to the next address
+Applicable(c) == /\ (c.addrs = 2 => c.mode = "plain")
+                 /\ \A i \in 1..Len(c.faults) :
                    /\ (c.faults[i].kind = "hookfail" => c.seg > 0)
                    /\ (c.faults[i].kind = "cancel" => c.trigger = "explicit")       \* announce-triggered syncs do not run under the caller's context
                    /\ (c.faults[i].kind \in BodyKinds \cup {"hookfail"} => ~(c.trigger = "explicit" /\ c.faults[i].at = 1))  \* request 1 is the head query
 
 Init == /\ cfg \in {c \in Configs : Applicable(c)}
-        /\ phase = 1 /\ pc = "start" /\ b = 0 /\ req = 0 /\ segblocks = <<>> /\ segleft = 0
+        /\ phase = 1 /\ pc = "start" /\ b = 0 /\ req = 0 /\ segblocks = <<>> /\ segleft = 0 /\ over = FALSE
         /\ store = {} /\ latest = 0 /\ cached = FALSE /\ noPath = FALSE /\ rep = <<>> /\ log = <<>>
 
 Clean == phase > Len(cfg.faults)
-FaultAt(r) == IF ~Clean /\ cfg.faults[phase].at = r THEN cfg.faults[phase].kind ELSE "ok"
+FaultAt(r) == IF ~Clean /\ ~over /\ cfg.faults[phase].at = r THEN cfg.faults[phase].kind ELSE "ok"
+FailsOver(k) == cfg.addrs = 2 /\ ~noPath /\ k \in FailOverKinds
 Has(c) == \E e \in store : e.cid = c
 StoredCids == {e.cid : e \in store}
 
@@ -60,7 +69,7 @@ Obs(result, evs) == [result |-> result, reported |-> rep, stored |-> StoredCids,
 EndSync(result, evs) ==
   /\ log' = Append(log, Obs(result, evs))
   /\ phase' = phase + 1 /\ pc' = IF phase + 1 > Len(cfg.faults) + 1 THEN "done" ELSE "start"
-  /\ b' = 0 /\ req' = 0 /\ segblocks' = <<>> /\ segleft' = 0 /\ rep' = <<>>
+  /\ b' = 0 /\ req' = 0 /\ segblocks' = <<>> /\ segleft' = 0 /\ rep' = <<>> /\ over' = FALSE
 
 Fail(k) ==    \* the sync ends with an error
   /\ noPath' = (noPath \/ (~FIXED /\ cfg.mode = "plain" /\ k \in {"s404", "s403"}))
@@ -79,25 +88,27 @@ Start ==
      ELSE /\ cached' = (cached \/ cfg.trigger = "announce")
           /\ IF cfg.trigger = "explicit"
              THEN (* request 1: the head query *)
-                  IF noPath \/ FaultAt(1) # "ok"
+                  IF noPath \/ (FaultAt(1) # "ok" /\ ~FailsOver(FaultAt(1)))
                   THEN /\ noPath' = (noPath \/ (~FIXED /\ cfg.mode = "plain" /\ FaultAt(1) \in {"s404", "s403"}))
                        /\ UNCHANGED <<latest, store>> /\ EndSync("error", <<>>)
                   ELSE IF latest = N
                   THEN UNCHANGED <<latest, store, noPath>> /\ EndSync("ok", <<>>)      \* head = latest: nothing to do
                   ELSE /\ req' = 1 /\ b' = N /\ pc' = "fetch" /\ segleft' = cfg.seg /\ segblocks' = <<>>
+                       /\ over' = FailsOver(FaultAt(1))        \* the head query was repeated on the second address
                        /\ UNCHANGED <<phase, store, latest, noPath, rep, log>>
              ELSE /\ req' = 0 /\ b' = N /\ pc' = "fetch" /\ segleft' = cfg.seg /\ segblocks' = <<>>
-                  /\ UNCHANGED <<phase, store, latest, noPath, rep, log>>
+                  /\ UNCHANGED <<phase, store, latest, noPath, rep, log, over>>
   /\ UNCHANGED cfg
 
 (* One block of the walk: local test, else one request whose answer is decided by the fault plan. *)
 Fetch ==
   /\ pc = "fetch" /\ UNCHANGED cfg
   /\ IF Has(b)
-     THEN /\ segblocks' = Append(segblocks, b) /\ pc' = "next" /\ UNCHANGED <<req, store, latest, cached, noPath, rep, log, phase, b, segleft>>
+     THEN /\ segblocks' = Append(segblocks, b) /\ pc' = "next" /\ UNCHANGED <<req, store, latest, cached, noPath, rep, log, phase, b, segleft, over>>
      ELSE LET r == req + 1  k == IF noPath THEN "s400" ELSE FaultAt(r) IN
-          IF k = "ok" \/ k = "hookfail"
+          IF k = "ok" \/ k = "hookfail" \/ FailsOver(k)
           THEN /\ store' = store \cup {[cid |-> b, body |-> b]} /\ req' = r
+               /\ over' = (over \/ FailsOver(k))          \* the request was repeated on the second address and answered there
                /\ segblocks' = Append(segblocks, b) /\ pc' = "next"
                /\ UNCHANGED <<latest, cached, noPath, rep, log, phase, b, segleft>>
           ELSE Fail(k)
@@ -112,7 +123,7 @@ NextBlock ==
          segEnds == cfg.seg > 0 /\ segleft = 1
      IN IF more /\ ~segEnds
         THEN /\ b' = b - 1 /\ segleft' = (IF cfg.seg > 0 THEN segleft - 1 ELSE 0) /\ pc' = "fetch"
-             /\ UNCHANGED <<req, segblocks, store, latest, cached, noPath, rep, log, phase>>
+             /\ UNCHANGED <<req, segblocks, store, latest, cached, noPath, rep, log, phase, over>>
         ELSE (* hooks of this segment run now *)
              IF FailingHook
              THEN /\ rep' = <<>>
@@ -120,16 +131,16 @@ NextBlock ==
                   /\ log' = Append(log, [result |-> "error", reported |-> rep \o segblocks, stored |-> StoredCids, latest |-> latest,
                                          events |-> IF cfg.trigger = "announce" THEN <<[cid |-> N, err |-> TRUE, count |-> 0]>> ELSE <<>>, noPath |-> noPath])
                   /\ cached' = (IF cfg.trigger = "announce" THEN FALSE ELSE cached)
-                  /\ phase' = phase + 1 /\ pc' = "start" /\ b' = 0 /\ req' = 0 /\ segblocks' = <<>> /\ segleft' = 0
+                  /\ phase' = phase + 1 /\ pc' = "start" /\ b' = 0 /\ req' = 0 /\ segblocks' = <<>> /\ segleft' = 0 /\ over' = FALSE
              ELSE IF more
              THEN /\ rep' = rep \o segblocks /\ segblocks' = <<>> /\ b' = b - 1 /\ segleft' = cfg.seg /\ pc' = "fetch"
-                  /\ UNCHANGED <<req, store, latest, cached, noPath, log, phase>>
+                  /\ UNCHANGED <<req, store, latest, cached, noPath, log, phase, over>>
              ELSE (* the sync succeeded *)
                   /\ latest' = N /\ UNCHANGED <<store, cached, noPath>>
                   /\ log' = Append(log, [result |-> "ok", reported |-> rep \o segblocks, stored |-> StoredCids, latest |-> N,
                                          events |-> <<[cid |-> N, err |-> FALSE, count |-> Len(rep \o segblocks)]>>, noPath |-> noPath])
                   /\ phase' = phase + 1 /\ pc' = IF phase + 1 > Len(cfg.faults) + 1 THEN "done" ELSE "start"
-                  /\ b' = 0 /\ req' = 0 /\ segblocks' = <<>> /\ segleft' = 0 /\ rep' = <<>>
+                  /\ b' = 0 /\ req' = 0 /\ segblocks' = <<>> /\ segleft' = 0 /\ rep' = <<>> /\ over' = FALSE
 
 Next == Start \/ Fetch \/ NextBlock
 Spec == Init /\ [][Next]_vars
